@@ -114,8 +114,9 @@ def build_table(tb: dict, perm=None) -> pymrio.IOSystem:
     if "x" in tb:
         x = np.array(tb["x"], dtype=float)
     io = pymrio.IOSystem()
-    if tb.get("dtype") == "int":
-        # a table of whole numbers stored with an integer dtype (the values are already integral)
+    if tb.get("dtype") == "int" and all(np.array_equal(a, np.rint(a)) for a in (Z, Y, x)):
+        # a table of whole numbers stored with an integer dtype (only when the values are integral: a stream that
+        # edits a cell afterwards keeps a float table)
         Z, Y, x = Z.astype(np.int64), Y.astype(np.int64), x.astype(np.int64)
     io.Z = pd.DataFrame(Z, index=ind, columns=ind)
     io.Y = pd.DataFrame(Y, index=ind, columns=fdi)
@@ -480,7 +481,7 @@ def gen_scenario(seed: int, stream: str = "shocked", **over) -> dict:
         # very small magnitudes (a table in a huge unit): every flow below NumPy's absolute tolerance 1e-8
         over = dict(over, scale=10.0 ** rng.choice([-9, -12, -15]))
     tb = gen_table(rng, **{kk: over[kk] for kk in ("m", "n", "k", "kind", "scale", "labels") if kk in over})
-    if stream == "eventfree" and random.Random(seed ^ 0x71).random() < 0.2:
+    if stream == "eventfree" and random.Random(seed ^ 0x71).random() < 0.25:
         # one industry nine orders of magnitude smaller than the others (its output per step is below one currency unit
         # of most monetary factors, next to ordinary industries)
         N_ = tb["m"] * tb["n"]
@@ -492,9 +493,16 @@ def gen_scenario(seed: int, stream: str = "shocked", **over) -> dict:
         tb["Y"][z_] = [v * 1e-9 for v in tb["Y"][z_]]
         tb["kind"] = tb["kind"] + "+tiny_industry"
         tb.pop("dtype", None)
+        over = dict(over, _tiny_industry=True)
     shock_prone = stream in ("shortage", "crash")
     cfg = gen_model_cfg(rng, tb, shock_prone=shock_prone)
     cfg.update(over.get("cfg", {}))
+    if over.get("_tiny_industry") and random.Random(seed ^ 0x73).random() < 0.7:
+        # ... with a base overproduction factor above 1 (every capacity ratio is then alpha_base, not 1)
+        if float(cfg["alpha_max"]) <= 1.0:
+            cfg["alpha_max"] = 1.5
+        cfg["alpha_base"] = cfg["alpha_max"]
+        cfg["order_type"] = random.Random(seed ^ 0x74).choice(["alt", "alt", "noalt"])
     T = over.get("T", rng.choice([12, 20, 30]) if stream != "mild" else rng.choice([30, 45]))
     sc = {"seed": seed, "stream": stream, "table": tb, "model": cfg, "T": T, "events": [],
           "sim": {"register_stocks": False, "save_records": [], "events_mode": "one"}}
